@@ -450,9 +450,9 @@ def evaluate(case, cache=None):
 
 
 def _exc_violation(e, inp, config, text):
-    """an unexpected exception is reported as a violation (the property cannot hold for an input that does not convert);
-    the known `<![` assertion (F-C02-1) is tagged"""
-    known = 'F-C02-1' if isinstance(e, AssertionError) and '<![' in text else None
+    """an unexpected exception is reported as a violation (the property cannot hold for an input that does not convert); nothing is
+    tagged: the `<![` assertion F-C02-1 is repaired, a recurrence is an ordinary violation"""
+    known = None
     return {'input': inp, 'config': config, 'observed': 'raised ' + repr(e), 'required': 'a conversion result', 'finding': known}
 
 
